@@ -6,12 +6,23 @@ META = {
                     "set: xattr_array_update and ext2fs_xattrs_write are cut (cut_statics) and replaced by recording stubs; "
                     "xattr_array_update is verified by harness update, the serialiser under ext2fs_xattrs_write by harness rt",
                     "remove/get: xattr_inode_dec_ref is cut to a recording stub; it is verified by harness decref",
+                    "xwstep/xread: ext2fs_xattrs_write / ext2fs_xattrs_read(_inode) as whole steps over CUT callees (serialiser, parser, "
+                    "prep_ea_block_for_write, ext2fs_write/read_ext_attr3 are recording stubs with symbolic failures; each is verified by rt / readbuf / "
+                    "prepblock / freeattr); s_want_extra_isize <= inode size - 128; handle consistent with the inode (no in-inode attribute without a region)",
+                    "mkea/mkentry/seteai: inode allocator, inode and file I/O, crc32c, bitmap update are recording stubs; xattr_inode_dec_ref (mkentry), "
+                    "xattr_array_update and ext2fs_xattrs_write (seteai) are cut",
+                    "earef: one operation of e2fsck/ea_refcount.c from an arbitrary valid sorted table (see the harness's ASSUME/STUB comments)",
                     "freeattr/adjust/decref/prepblock/xwrite: block and inode I/O, the block allocator (ext2fs_find_inode_goal, ext2fs_alloc_block2), bitmaps (alloc_stats), punch are recording stubs with symbolic failures"],
-    "outside": ["CREATING a value in an EA inode (xattr_create_ea_inode, in_inode = 1, the ea_inode retry of ext2fs_xattr_set); existing "
+    "outside": ["the CONTENT path of a new value inode below ext2fs_file_write / ext2fs_new_inode (stubs in mkea); creating it (xattr_create_ea_inode), the "
+                "entry edit with in_inode = 1 (xattr_update_entry) and the ea_inode decision / retry of ext2fs_xattr_set ARE covered by mkea / mkentry / seteai; "
+                "xattr_array_update's space accounting with in_inode = 1 is not; existing "
                 "EA-inode-backed attributes ARE covered: rt (image, hash, parser through a file stub), readbuf (accept/reject rules incl. the 64 KiB "
                 "limit), update/remove (space accounting, the reference is dropped exactly once and on the right inode), decref (release at count 0)",
-                "ext2fs_xattrs_write on large inodes (placement of the in-inode region by i_extra_isize, both regions written in one call) and "
-                "ext2fs_xattrs_read_inode as a whole; the block-writing tail of ext2fs_xattrs_write (128-byte inode), prep_ea_block_for_write "
+                "ext2fs_xattrs_write on large inodes and ext2fs_xattrs_read / ext2fs_xattrs_read_inode ARE covered as whole steps over cut callees "
+                "(xwstep, xread: region placement by i_extra_isize, magic, both regions in one call, value-offset bases 0 / 32, block number range, v2 "
+                "magic, count / ibody_count, inode written once and last, nothing written after a failure), composed with rt / readbuf / prepblock by "
+                "assume-guarantee, NOT as one end-to-end query with real bytes through both; s_want_extra_isize > inode size - 128 with "
+                "i_extra_isize == 0 (ext2fs_xattrs_write zeroes that many bytes of the inode buffer unchecked); the block-writing tail of ext2fs_xattrs_write (128-byte inode), prep_ea_block_for_write "
                 "(allocate / reuse / un-share), ext2fs_free_ext_attr and ext2fs_adjust_ea_refcount3 ARE covered by xwrite/prepblock/freeattr/adjust",
                 "ext2fs_xattrs_write never gives an attribute block back when the block part becomes empty (it keeps an empty block; the release "
                 "branch is unreachable): consistent on disk, checked as such; the kernel's behaviour is available as -DSTRICT in prepblock.c",
@@ -19,7 +30,8 @@ META = {
                 "POSIX ACL conversion (convert_posix_acl_to_disk_buffer and back)",
                 "interaction with inline data beyond ext2fs_xattr_set's system.data rule (block_free = 0, corrupted if found in the block part)",
                 "more than 3 attributes, names > 4 and values > 8 bytes (readbuf: any 32-bit size, not materialised), regions > 96 bytes, ext2fs_xattrs_expand",
-                "e2fsck pass1 checks and ea_refcount, debugfs/create_inode callers"],
+                "e2fsck pass1 checks (C05 eablock), debugfs/create_inode callers; e2fsck/ea_refcount.c IS covered per operation (earef): "
+                "histories follow by induction over its invariant; ea_refcount_create/free and table growth beyond one step are not"],
 }
 
 HASH_UW = ["main.%d:14" % i for i in range(8)] + \
@@ -223,6 +235,70 @@ HARNESSES = [
          bound="names 0..6 bytes (all byte values), values 0..8 bytes incl. padding bytes, all 2^32 stored hashes; "
                "block hash over 0..3 entries with symbolic entry hashes and end pointer"),
 ]
+XIO_UW = ["main.%d:300" % i for i in range(6)] + ["ext2fs_read_inode_full.0:300", "ext2fs_write_inode_full.0:300",
+          "ext2fs_read_ext_attr3.0:40", "xattrs_free_keys.0:6"]
+HARNESSES.append(
+    dict(name="xwstep", src="xio.c",
+         funcs=["ext2fs_xattrs_write", "ext2fs_file_acl_block"],
+         extra_src=["lib/ext2fs/blknum.c"],
+         cut_statics={"lib/ext2fs/ext_attr.c": ["write_xattrs_to_buffer", "prep_ea_block_for_write", "ext2fs_write_ext_attr3", "ext2fs_free_ext_attr"]},
+         configs=[{"MODE": 1, "ISIZE": 256}, {"MODE": 1, "ISIZE": 160}, {"MODE": 1, "ISIZE": 128}], witness_per_config=True,
+         unwind=3, unwindset=XIO_UW, backends=["default", "kissat"], cap_quick=300,
+         bound="inode size 128 / 160 / 256 (compile-time), every byte of the stored inode symbolic (any 16-bit i_extra_isize, any i_file_acl), "
+               "s_want_extra_isize 0..inode size-128, handle with 0..3 attributes and any ibody_count, symbolic failure of every callee; "
+               "callees (serialiser, block preparation, block write) are recording stubs; block size 1024, no 64bit"))
+HARNESSES.append(
+    dict(name="xread", src="xio.c",
+         funcs=["ext2fs_xattrs_read", "ext2fs_xattrs_read_inode", "xattrs_free_keys", "ext2fs_file_acl_block", "ext2fs_blocks_count"],
+         extra_src=["lib/ext2fs/blknum.c"],
+         cut_statics={"lib/ext2fs/ext_attr.c": ["read_xattrs_from_buffer", "ext2fs_read_ext_attr3"]},
+         configs=[{"MODE": 2, "ISIZE": 256}, {"MODE": 2, "ISIZE": 160}, {"MODE": 2, "ISIZE": 128}], witness_per_config=True,
+         unwind=3, unwindset=XIO_UW, backends=["default", "kissat"], cap_quick=300,
+         bound="inode size 128 / 160 / 256 (compile-time), every byte of the stored inode symbolic (i_extra_isize, magic position and value, "
+               "i_file_acl), 32-byte block header symbolic, s_first_data_block / s_blocks_count 32-bit symbolic, the (cut) parser reports 0..2 "
+               "attributes per region or fails, symbolic inode / block read failure; block size 1024, no 64bit"))
+MKEA_UW = ["main.%d:10" % i for i in range(6)] + ["strlen.0:10"]
+HARNESSES.append(
+    dict(name="mkea", src="mkea.c",
+         funcs=["xattr_create_ea_inode", "ext2fs_set_ea_inode_ref", "ext2fs_set_ea_inode_hash"],
+         configs=[{"MODE": 1, "EXTENTS": 1}, {"MODE": 1, "EXTENTS": 0}], witness_per_config=True,
+         unwind=3, unwindset=MKEA_UW, backends=["default", "kissat"], cap_quick=300,
+         bound="value length any 32-bit number (bytes only handed on), new inode number, current time, checksum seed and value hash symbolic 32-bit; "
+               "symbolic failure of the allocator, both inode writes, open and content write; extents feature on/off; allocator, inode I/O, "
+               "file I/O, crc32c and bitmap update are recording stubs"))
+HARNESSES.append(
+    dict(name="mkentry", src="mkea.c",
+         funcs=["xattr_update_entry", "xattr_create_ea_inode"],
+         cut_statics={"lib/ext2fs/ext_attr.c": ["xattr_inode_dec_ref"]},
+         configs=[{"MODE": 2}, {"MODE": 2, "NEWENTRY": None}], witness_per_config=True,
+         unwind=3, unwindset=MKEA_UW, backends=["default", "kissat"], cap_quick=300,
+         bound="as mkea; one list entry user.ab (existing with a 4-byte value in-line or in a value inode with symbolic number, or an empty slot), "
+               "new value of 6 bytes forced into a value inode (in_inode = 1); symbolic failure of dropping the old reference"))
+HARNESSES.append(
+    dict(name="seteai", src="seteai.c",
+         funcs=["ext2fs_xattr_set", "space_used"],
+         cut_statics={"lib/ext2fs/ext_attr.c": ["xattr_array_update", "ext2fs_xattrs_write"]},
+         configs=[{"VL": 968, "FEAT": 1}, {"VL": 969, "FEAT": 1}, {"VL": 8, "FEAT": 1}, {"VL": 969, "FEAT": 0}, {"VL": 8, "FEAT": 0},
+                  {"VL": 969, "FEAT": 1, "SYSDATA": 1}, {"VL": 8, "FEAT": 1, "SYSDATA": 1}], witness_per_config=True,
+         unwind=3, unwindset=["strcmp.0:26", "strlen.0:26", "memcmp.0:10", "space_used.0:2", "ext2fs_xattr_set.0:2"],
+         backends=["default", "kissat"], cap_quick=300,
+         bound="empty attribute list, 256-byte inode (i_extra_isize 32), block size 1024, value length 8 / 968 / 969 (compile-time, around the "
+               "value-inode threshold), ea_inode feature on/off, names user.a and system.data; first edit fails with NO_SPACE / another error / "
+               "succeeds, second edit and write-back fail symbolically"))
+# EAREF-BEGIN (e2fsck/ea_refcount.c; entry maintained separately)
+def EAREF_UW(sz):   # binary search over <= sz+1 entries (second lookup from the post state); retry (backward goto) at most once; collapse / walk over <= sz entries
+    return ["get_refcount_el.0:%d" % ((sz + 1).bit_length() + 1), "get_refcount_el.1:2", "refcount_collapse.0:%d" % (sz + 1),
+            "ea_refcount_intr_next.0:%d" % (sz + 2)]
+HARNESSES.append(dict(name="earef", src="earef.c",
+     funcs=["get_refcount_el", "insert_refcount_el", "refcount_collapse", "ea_refcount_increment", "ea_refcount_fetch"],
+     configs=[{"OP": 2, "SZ": 3, "_unwindset": EAREF_UW(3)}, {"OP": 4, "SZ": 3, "_unwindset": EAREF_UW(3)},
+              {"OP": 1, "SZ": 4}, {"OP": 3, "SZ": 4}, {"OP": 5, "SZ": 4},
+              {"OP": 2, "SZ": 4, "_tier": "thorough"}, {"OP": 4, "SZ": 4, "_tier": "thorough"}],
+     cbmc_flags=["--max-field-sensitivity-array-size", "128"],
+     unwind=6, unwindset=EAREF_UW(4),
+     backends=["default", "kissat"], cap_quick=300,
+     bound="table of capacity 4, count 0..4 symbolic, keys/values/operand/probe key full 64 bit, cursor any size_t; one operation"))
+# EAREF-END
 MANIFEST = {
     "text": "Bounded-exhaustive for the attribute list and its byte image: from every valid in-memory list within the bounds, one "
             "set (xattr_array_update), remove or get yields exactly the model map, keeps both parts within their capacity and the block "
@@ -232,7 +308,14 @@ MANIFEST = {
             "list edit and writes back once; entry and block hashes equal the format's definition for all inputs in the bound. "
             "Reference counts: a shared attribute block is written back with count-1 and released only by its last user; a value inode loses "
             "exactly one reference, on the right inode, and is released at 0; the parser accepts an entry iff it satisfies the stated rules "
-            "(value inode sizes up to 64 KiB inclusive). Writing the list allocates a block iff the inode has none or shares one, charges i_blocks one block iff it had none, and leaves the inode unwritten on any failure. Creation of value inodes is outside.",
+            "(value inode sizes up to 64 KiB inclusive). Writing the list allocates a block iff the inode has none or shares one, charges i_blocks one block iff it had none, and leaves the inode unwritten on any failure. "
+            "Whole write / read steps (large inodes): the in-inode region sits behind i_extra_isize and the magic, the first ibody_count attributes go "
+            "there with offset base 0 and the rest to block + 32 with base 32, the block is prepared and written once to the inode's i_file_acl, the inode "
+            "is written once, last, and not at all after any failure; the reader parses exactly the regions present (room + magic; i_file_acl in "
+            "range + v2 magic) with the matching bases and sets count / ibody_count. A new value inode is a 0600 regular file with EXT4_EA_INODE_FL, "
+            "one link, reference count 1 and crc32c(seed, value) in i_atime in its LAST written image, marked in use once; a failed drop of the old "
+            "reference gives the new inode back; ext2fs_xattr_set uses a value inode at once iff ea_inode and length > blocksize - 56, retries once "
+            "after NO_SPACE only, never for system.data. e2fsck's ea_refcount table behaves as a key->count map for one operation from any valid table.",
     "note": "Trusted: CBMC's C semantics, the harness's restatement of the on-disk format (xa_common.h), the element-wise memmove model, "
             "bounds listed per harness in evidence/C15.json.",
 }
